@@ -325,7 +325,20 @@ func unmarshalSourceFile(source string) (*sourceFile, error) {
 	if len(file.RelPath) < 1 {
 		return nil, simpleTrzszError("Invalid source file: %s", source)
 	}
+	for _, name := range file.RelPath {
+		if !isSafeFileName(name) {
+			return nil, simpleTrzszError("Invalid source file: %s", source)
+		}
+	}
 	return &file, nil
+}
+
+// isSafeFileName returns false if a name from the peer could leave the directory it is joined onto.
+func isSafeFileName(name string) bool {
+	if name == "" || name == "." || name == ".." {
+		return false
+	}
+	return !strings.ContainsRune(name, '/') && !strings.ContainsRune(name, filepath.Separator)
 }
 
 type targetFile struct {
